@@ -61,9 +61,30 @@ Fixpoint nlist_eqb (a b : list N) : bool :=
 Definition mk_msg (m : Z * nat * pt Z * pt Z) : @msg Z nat :=
   let '(s, d, a, b) := m in Msg s d a b.
 
+(* A signer id longer than 32 bytes makes groupsig.ID.Serialize panic in the handler's first log line;
+   baseParty.Update recovers, the message is dropped and the party goes on: such messages (observed
+   outcome 12 = "panic recovered", or 9/10 when the party had already ended; no party end) are removed
+   before the model runs. *)
+Definition long_id (m : Z * nat * pt Z * pt Z) : bool := let '(s, _, _, _) := m in (2 ^ 256 <=? s).
+
+Fixpoint drop_long {A : Type} (ms : list (Z * nat * pt Z * pt Z)) (obs : list A) (isp : A -> bool)
+  : option (list (Z * nat * pt Z * pt Z) * list A) :=
+  match ms, obs with
+  | [], _ => Some ([], obs)
+  | m :: ms', o :: obs' =>
+      match drop_long ms' obs' isp with
+      | Some (ml, ol) => if long_id m then (if isp o then Some (ml, ol) else None) else Some (m :: ml, o :: ol)
+      | None => None
+      end
+  | _ :: _, [] => None
+  end.
+
 Definition check (c : case) : bool :=
   match c with
-  | CRun n thr members gsk existed hs pr fut fobs fterm msgs obs admitted rec gs rs =>
+  | CRun n thr members gsk existed hs pr fut fobs fterm msgs0 obs0 admitted rec gs rs =>
+      match drop_long msgs0 obs0 (fun o => ((fst o =? 12) || (fst o =? 9) || (fst o =? 10))%N && (snd o =? 0)%N) with
+      | None => false
+      | Some (msgs, obs) =>
       let e := Env 0%nat pr members thr existed gsk in
       let '(ps0, l0, t0) := zparty_start r hs true e (map mk_msg fut) in
       let '(pf, l) := zparty_run_from r hs true e ps0 (map mk_msg msgs) in
@@ -78,5 +99,6 @@ Definition check (c : case) : bool :=
          | None, None => negb rec
          | _, _ => false
          end
+      end
   | CGuards codes => nlist_eqb codes guard_order
   end.
